@@ -423,6 +423,11 @@ func (s *SMT) traverse() (err lib.ErrorI) {
 			currentKey = s.current.RightChildKey
 		}
 		s.stats.TraverseSteps++
+		// a node that is a strict prefix of the target always has two children in a well-formed tree;
+		// a missing child means the tree (i.e. one rebuilt from a proof) does not describe this path
+		if len(currentKey) == 0 {
+			return ErrInvalidMerkleTree()
+		}
 		// load current node from the store
 		s.current, err = s.getNode(currentKey)
 		if err != nil {
@@ -771,12 +776,26 @@ func (s *SMT) GetMerkleProof(k []byte) ([]*lib.Node, lib.ErrorI) {
 // VerifyProof verifies a Sparse Merkle Tree proof for a given value
 // reconstructing the root hash and comparing it against the provided root hash
 // depending on the proof type (membership or non-membership)
-func (s *SMT) VerifyProof(k []byte, v []byte, validateMembership bool, root []byte, proof []*lib.Node) (bool, lib.ErrorI) {
+func (s *SMT) VerifyProof(k []byte, v []byte, validateMembership bool, root []byte, proof []*lib.Node) (valid bool, e lib.ErrorI) {
+	// a proof is untrusted input: malformed node keys must not crash the verifier
+	defer func() {
+		if r := recover(); r != nil {
+			valid, e = false, ErrInvalidMerkleTreeProof()
+		}
+	}()
 	// shorthand for the length of the proof slice
 	proofLen := len(proof)
 	// the proof slice must contain at least two nodes: the leaf node and its sibling
 	if proofLen < 2 {
 		return false, ErrInvalidMerkleTreeProof()
+	}
+	// every node of a proof must have the shape of a tree node: the parent hash input
+	// key|value|key|value carries no length framing, so the boundary between a key and its
+	// value is only unambiguous if keys are well-formed and values have their fixed size
+	for _, n := range proof {
+		if !s.validProofNode(n) {
+			return false, ErrInvalidMerkleTreeProof()
+		}
 	}
 	// The target is always the first value in the proof. For membership
 	// proofs, it represents the actual value being verified. For non-membership proofs,
@@ -881,6 +900,11 @@ func (s *SMT) VerifyProof(k []byte, v []byte, validateMembership bool, root []by
 	if err := smt.traverse(); err != nil {
 		return false, err
 	}
+	// The proof only authenticates its first node: the walk towards the key must end exactly there.
+	// Ending on a sibling (whose subtree the proof does not expand) says nothing about the key.
+	if !bytes.Equal(smt.current.Key.bytes(), proof[0].Key) {
+		return false, nil
+	}
 	// Verify whether the key exists in the tree and what kind of proof is being validated
 	// (membership or non-membership).
 	// if the key does not exist in the tree and the proof is for membership or
@@ -898,6 +922,30 @@ func (s *SMT) VerifyProof(k []byte, v []byte, validateMembership bool, root []by
 	// children's keys and values. A mismatch in values indicates that the Merkle
 	// root could not have been derived from this data.
 	return bytes.Equal(proof[0].Value, crypto.Hash(v)), nil
+}
+
+// validProofNode() checks that a node received in a proof is shaped like a node of this tree
+func (s *SMT) validProofNode(n *lib.Node) bool {
+	if n == nil {
+		return false
+	}
+	// key: data bytes plus the meta byte, never longer than a leaf key
+	size := len(n.Key)
+	if size < 2 || size > (s.keyBitLength+7)/8+1 {
+		return false
+	}
+	// the meta byte counts the leading zeroes of the last data byte
+	if int(n.Key[size-1])+bits.Len8(n.Key[size-2]) > 8 {
+		return false
+	}
+	if new(key).fromBytes(bytes.Clone(n.Key)).totalBits() > s.keyBitLength {
+		return false
+	}
+	// value: a hash, except for the two reserved leaves which carry their fixed marker values
+	if len(n.Value) == crypto.HashSize {
+		return true
+	}
+	return len(n.Value) == 20 && (bytes.Equal(n.Key, s.minKey.bytes()) || bytes.Equal(n.Key, s.maxKey.bytes()))
 }
 
 // NODE KEY CODE BELOW
